@@ -1003,6 +1003,8 @@ fn concretise_h1(c: &Value, code: &Value, lane: &Lane, rng: &mut Rng) -> Concret
             let s = match k {
                 "valid" => rng.pick(&["5\r\nhello\r\n0\r\n\r\n", "2\r\nhe\r\n3\r\nllo\r\n0\r\n\r\n", "05\r\nhello\r\n0\r\n\r\n", "5\r\nhello\r\n00\r\n\r\n", "1\r\nh\r\n4\r\nello\r\n0\r\n\r\n"]),
                 "trailers" => { trailers = vec!["x-t".into(), "x-u".into()]; rng.pick(&["5\r\nhello\r\n0\r\nX-T: 1\r\n\r\n", "5\r\nhello\r\n0\r\nX-T: 1\r\nX-U: 2\r\n\r\n"]) }
+                "trframing" => { trailers = vec!["x-t".into(), "content-length".into(), "host".into(), "transfer-encoding".into()];
+                    rng.pick(&["5\r\nhello\r\n0\r\nX-T: 1\r\nContent-Length: 7\r\nHost: evil.test\r\n\r\n", "5\r\nhello\r\n0\r\nContent-Length: 0\r\nX-T: 1\r\n\r\n", "5\r\nhello\r\n0\r\nTransfer-Encoding: chunked\r\nX-T: 1\r\n\r\n"]) }
                 "badsize" => rng.pick(&["5\r\nhello\r\nZZ\r\n\r\n", "0x5\r\nhello\r\n0\r\n\r\n", "+5\r\nhello\r\n0\r\n\r\n", "5\r\nhelloXX0\r\n\r\n", " 5\r\nhello\r\n0\r\n\r\n", "-1\r\nhello\r\n0\r\n\r\n", "5\r\nhello\r\n-0\r\n\r\n"]),
                 "ext" => rng.pick(&["5;ext=1\r\nhello\r\n0\r\n\r\n", "5\r\nhello\r\n0;a=b\r\n\r\n", "5;x\r\nhello\r\n0\r\n\r\n"]),
                 _ => rng.pick(&["5\nhello\n0\n\n", "5\r\nhello\n0\r\n\r\n", "5\r\nhello\r\n0\n\n"]),
@@ -1108,6 +1110,7 @@ fn concretise_h2(c: &Value, lane: &Lane, rng: &mut Rng) -> Concrete {
     if tr != "none" {
         let t: Vec<(Vec<u8>, Vec<u8>)> = match tr {
             "plain" | "noes" => vec![(b("x-t"), b("1"))],
+            "framing" => vec![(b("x-t"), b("1")), (b("content-length"), b("99")), (b("host"), b("evil.test"))],
             "ident" => vec![(b("x-t"), b("1")), (b(rng.pick(&["x-forwarded-for", "forwarded", "x-real-ip", "x-request-id"])), b("6.6.6.6"))],
             "pseudo" => vec![(b("x-t"), b("1")), (b(rng.pick(&[":path", ":method", ":status"])), b("/q"))],
             "cs" => vec![(b("x-t"), b("1")), (b(rng.pick(&["transfer-encoding", "connection", "upgrade"])), b("chunked"))],
@@ -1119,7 +1122,7 @@ fn concretise_h2(c: &Value, lane: &Lane, rng: &mut Rng) -> Concrete {
     pr.pad_data = rng.chance(30);
     pr.gap_ms = if rng.chance(50) { 0 } else { 25 };
     let desc = format!("cont={} pad={} gap={}ms", pr.split_continuation, pr.pad_data, pr.gap_ms);
-    let trailers = if matches!(tr, "plain" | "ident") { vec!["x-t".to_string()] } else { vec![] };
+    let trailers = if matches!(tr, "plain" | "ident") { vec!["x-t".to_string()] } else if tr == "framing" { vec!["x-t".to_string(), "content-length".into(), "host".into()] } else { vec![] };
     Concrete { h1_bytes: vec![], h2: pr, pipelined: true, cuts: vec![], target, body, names, trailers, desc }
 }
 
@@ -1268,12 +1271,12 @@ fn judge(lane: &Lane, case: &Value, conc: &Concrete, cobs: &ClientObs, bobs: &Ba
 
 struct CaseOutcome { class: String, verdicts: Vec<Verdict>, cobs: ClientObs, bobs: BackObs, conc_desc: String, sent: String }
 
-fn run_case(env: &Env, lane: &Lane, case: &Value, seed: u64, idx: u64, variant: u64, deviations: &str) -> CaseOutcome {
+fn run_case(env: &Env, lane: &Lane, case: &Value, seed: u64, idx: u64, variant: u64, deviations: &str, wait_ms: u64) -> CaseOutcome {
     let c = &case["c"];
     let mut rng = Rng::new(seed, idx, variant);
     let h2c = env.backend_kind == "h2c";
     let epoch = lane.epoch.fetch_add(1, Ordering::SeqCst) + 1;
-    let wait = Duration::from_millis(2500);
+    let wait = Duration::from_millis(wait_ms);
     let (conc, cobs, sent) = if c["front"] == "h1" {
         let mut conc = concretise_h1(c, &case["code"], lane, &mut rng);
         if h2c { conc.pipelined = false; }
@@ -1336,10 +1339,19 @@ fn replay(seed: u64, nlanes: usize, backend_kind: &'static str, variants: u64, d
                 for variant in 0..variants {
                     // --force-index/--force-variant: re-run one recorded violation with the very same concretisation
                     let (ci, variant) = match force { Some((fi, fv)) => (fi, fv), None => (i as u64, variant) };
-                    let mut o = run_case(&env, &lane, case, seed, ci, variant, &deviations);
+                    let mut o = run_case(&env, &lane, case, seed, ci, variant, &deviations, 2500);
                     // a hang (no answer within the wait) is retried once before it counts
-                    if o.class == "hang" && force.is_none() {
-                        o = run_case(&env, &lane, case, seed, ci, variant + 1000, &deviations);
+                    // no answer within 2.5 s, or the harness could not attribute backend connections in time (machine
+                    // overloaded): run the same probe again with a generous wait before anything is concluded
+                    let mut again = 0;
+                    while (o.class == "hang" || o.bobs.anomalies.iter().any(|a| a.2 == "harness-barrier-timeout")) && again < 2 {
+                        again += 1;
+                        n_retries.fetch_add(1, Ordering::Relaxed);
+                        o = run_case(&env, &lane, case, seed, ci, variant, &deviations, 8000);
+                    }
+                    if o.bobs.anomalies.iter().any(|a| a.2 == "harness-barrier-timeout") {
+                        o.class = "unavailable".into();
+                        o.verdicts.clear();
                     }
                     // 502/503/504 with nothing written to a backend: sozu's circuit breaker / retry policy holds the lane's
                     // backend for unavailable after earlier connections were cut by the (strict) backend. Not an answer about
@@ -1349,7 +1361,7 @@ fn replay(seed: u64, nlanes: usize, backend_kind: &'static str, variants: u64, d
                         tries += 1;
                         n_retries.fetch_add(1, Ordering::Relaxed);
                         std::thread::sleep(Duration::from_millis(120 * tries));
-                        o = run_case(&env, &lane, case, seed, ci, variant + if force.is_some() { 0 } else { 2000 * tries }, &deviations);
+                        o = run_case(&env, &lane, case, seed, ci, variant, &deviations, 4000);
                     }
                     if matches!(o.class.as_str(), "r502" | "r503" | "r504") && o.bobs.reqs.is_empty() && o.bobs.raw.iter().all(|r| r.2.is_empty()) {
                         o.class = "unavailable".into();
